@@ -85,6 +85,15 @@ def mk(iv):
     return TieredInterval(*t, cutoff=c, pre_length=p)
 
 
+def mk_used(iv):
+    """the same delay after it has been used: applied to a time and printed"""
+    from mosaik.tiered_time import TieredTime
+    x = mk(iv)
+    _ = TieredTime(*([1] * iv[0])) + x
+    _ = repr(x)
+    return x
+
+
 def unmk(x):
     return (x.pre_length, x.cutoff, tuple(x.tiers))
 
@@ -132,6 +141,23 @@ def check_pair(a, b):
                            f"a={a} b={b}: reference says a {rel} b (pointwise on all times) but "
                            f"a<b={lt} b<a={gt} a==b={eq}", case))
         return out
+    # the relation between two delays must not depend on their *history*: an operand that has been used before
+    # (applied to a time, printed) against a freshly built equal-valued one, in every combination
+    for ua, ub in ((True, False), (False, True), (True, True)):
+        try:
+            A = mk_used(a) if ua else mk(a)
+            B = mk_used(b) if ub else mk(b)
+            got2 = (bool(A < B), bool(B < A), bool(A == B))
+            gts = (bool(A > B), bool(B > A))
+            if got2 != want or gts != (rel == "gt", rel == "lt"):
+                out.append(Failure("C08.history_dependent", "C08.history_dependent",
+                                   f"a={a} b={b} (a used before: {ua}, b used before: {ub}): reference a {rel} b, but "
+                                   f"a<b, b<a, a==b = {got2}; a>b, b>a = {gts}", case))
+                return out
+        except Exception as e:  # noqa
+            out.append(Failure("C08.exception_on_comparable", "C08.exception_on_comparable|used_operand",
+                               f"comparison of used operands ({a},{b}) raised {type(e).__name__}: {e}", case))
+            return out
     # the derived operators must agree with <, == (update_min uses <=)
     try:
         A, B = mk(a), mk(b)
